@@ -169,8 +169,77 @@ def patMonStep (st : SSt) (ts : List String) : SSt × String :=
 def patSuite : Suite := { σ := SSt, init := {}, step := patStep }
 def patMon : Suite := { σ := SSt, init := {}, step := patMonStep }
 
+/-! ### library filters and collectors under the parallel BreadthFirst (DAGs) -/
+
+def outTargets (edges : List (Nat × Nat × Nat)) (n : Nat) : List Nat :=
+  (edges.filter (fun e => e.2.1 == n)).map (·.2.2)
+
+/-- nodes reachable from the stack (every node expanded once) -/
+def reachNodes (edges : List (Nat × Nat × Nat)) : Nat → List Nat → List Nat → List Nat
+  | 0, _, v => v
+  | _, [], v => v
+  | f + 1, n :: rest, v =>
+    if v.contains n then reachNodes edges f rest v else reachNodes edges f (outTargets edges n ++ rest) (n :: v)
+
+/-- number of path segments of the DAG below `n` (the sequential enumeration without any filter) -/
+def countSegs (edges : List (Nat × Nat × Nat)) : Nat → Nat → Nat
+  | 0, _ => 1
+  | f + 1, n => 1 + ((outTargets edges n).map (countSegs edges f)).sum
+
+/-- the sequential enumeration: every edge out of a reachable node is delivered exactly once -/
+def fltExpect (edges : List (Nat × Nat × Nat)) (mode : String) (root arg : Nat) : Option String :=
+  let nodes := reachNodes edges (2 * edges.length + 4) [root] []
+  let es := (edges.filter (fun e => nodes.contains e.2.1)).map (·.1)
+  match mode with
+  | "unique" => some s!"edges={natList (sortNat es)}"
+  | "collect" => some s!"nodes={natList (sortNat nodes)} paths={es.length + 1}"
+  | "acyclic" => some s!"segments={countSegs edges (edges.length + 1) root} nodes={natList (sortNat nodes)}"
+  | "fslskip" => some s!"visited={es.length - arg}"
+  | _ => none
+
+def fltStep (st : SSt) (ts : List String) : SSt × String :=
+  match ts with
+  | ["graph"] => ({}, "ok")
+  | ["edge", e, a, b] => match e.toNat?, a.toNat?, b.toNat? with
+    | some e, some a, some b => ({ st with edges := insertEdge (e, a, b) st.edges }, "ok")
+    | _, _, _ => (st, "bad-op")
+  | ["flt", mode, root, _workers, arg] => match root.toNat?, arg.toNat? with
+    | some root, some arg => (st, (fltExpect st.edges mode root arg).getD "bad-op")
+    | _, _ => (st, "bad-op")
+  | _ => (st, "bad-op")
+
+def fltMonStep (st : SSt) (ts : List String) : SSt × String :=
+  let (op, out) := splitArrow ts
+  let got := " ".intercalate out
+  match op with
+  | ["graph"] => ({}, "ok")
+  | ["edge", e, a, b] => match e.toNat?, a.toNat?, b.toNat? with
+    | some e, some a, some b => ({ st with edges := insertEdge (e, a, b) st.edges }, "ok")
+    | _, _, _ => (st, "reject bad-op")
+  | ["flt", mode, root, workers, arg] => match root.toNat?, arg.toNat? with
+    | some root, some arg =>
+      if got.startsWith "leak@" then (st, s!"reject goroutine-leak {got}") else
+      if got == "hang" then (st, "reject hang BreadthFirst did not return") else
+      match fltExpect st.edges mode root arg with
+      | none => (st, "reject bad-op")
+      | some want =>
+        if got == want then (st, "ok") else
+        -- name the failure: a duplicated result is the exactly-once violation
+        let dup := match (out.findSome? (field · "edges")).bind parseNatList with
+          | some es => ((sortNat es).zip ((sortNat es).drop 1)).find? (fun (p : Nat × Nat) => p.1 == p.2)
+          | none => none
+        match dup with
+        | some p => (st, s!"reject duplicate segment over edge {p.1} delivered more than once with {workers} workers (the sequential enumeration delivers each edge once)")
+        | none => (st, s!"reject result-mismatch got {(got.take 200).toString} but the sequential enumeration gives {(want.take 200).toString}")
+    | _, _ => (st, "reject bad-op")
+  | _ => (st, "reject bad-op")
+
+def fltSuite : Suite := { σ := SSt, init := {}, step := fltStep }
+def fltMon : Suite := { σ := SSt, init := {}, step := fltMonStep }
+
 end Driver.C17Par
 
 def Driver.C17Par.suites : List (String × Driver.Suite) :=
   [("c17fsl", Driver.C17Par.fslSuite), ("c17fslmon", Driver.C17Par.fslMon), ("c17pnq", Driver.C17Par.pnqSuite),
-   ("c17pnqmon", Driver.C17Par.pnqMon), ("c17pat", Driver.C17Par.patSuite), ("c17patmon", Driver.C17Par.patMon)]
+   ("c17pnqmon", Driver.C17Par.pnqMon), ("c17pat", Driver.C17Par.patSuite), ("c17patmon", Driver.C17Par.patMon),
+   ("c17flt", Driver.C17Par.fltSuite), ("c17fltmon", Driver.C17Par.fltMon)]
